@@ -75,6 +75,14 @@ def write_pkg(dirpath, files, module='verifprog'):
     if 'go.mod' not in files:
         with open(os.path.join(dirpath, 'go.mod'), 'w') as f:
             f.write('module %s\n\ngo 1.20\n' % module)
+            if any('github.com/gopherjs/gopherjs/' in t for t in files.values()):
+                # packages of the repository itself (nosync, js) are taken from /repo's working tree
+                f.write('\nrequire github.com/gopherjs/gopherjs v0.0.0\n\nreplace github.com/gopherjs/gopherjs => %s\n' % REPO)
+        if any('github.com/gopherjs/gopherjs/' in t for t in files.values()):
+            try:
+                shutil.copy(os.path.join(REPO, 'go.sum'), os.path.join(dirpath, 'go.sum'))
+            except OSError:
+                pass
 
 
 def compile_js(dirpath, minify=False, tags=None, out='out.js', timeout=300):
@@ -128,7 +136,7 @@ class Z3Session:
     z3's own :timeout/:rlimit are not honoured by every tactic, so a wall-clock watchdog kills and restarts the
     process (replaying the assertion stack) when a query overruns; such a query counts as `unknown`."""
 
-    def __init__(self, timeout_ms=20000, binary=None, rlimit=150000000):
+    def __init__(self, timeout_ms=20000, binary=None, rlimit=0):
         self.binary = binary or Z3
         self.timeout_ms = timeout_ms
         self.rlimit = rlimit
@@ -144,7 +152,8 @@ class Z3Session:
         self.p = subprocess.Popen([self.binary, '-in'], stdin=subprocess.PIPE, stdout=subprocess.PIPE,
                                   stderr=subprocess.STDOUT, bufsize=0, preexec_fn=_die_with_parent)
         self._raw('(set-option :timeout %d)' % self.timeout_ms)
-        self._raw('(set-option :rlimit %d)' % self.rlimit)
+        if self.rlimit:
+            self._raw('(set-option :rlimit %d)' % self.rlimit)
         self.buf = b''
 
     def _raw(self, text):
@@ -260,7 +269,8 @@ class Z3Session:
         self.frames = [[]]
         self._raw('(reset)')
         self._raw('(set-option :timeout %d)' % self.timeout_ms)
-        self._raw('(set-option :rlimit %d)' % self.rlimit)
+        if self.rlimit:
+            self._raw('(set-option :rlimit %d)' % self.rlimit)
         for ln in lines:
             self.send(ln)
         t0 = time.time()
